@@ -52,6 +52,28 @@ pub struct BlockInfo {
     pub(crate) parent: BlockId,
 }
 
+/// Constructor and accessors for the external verification harness.
+#[cfg(alpenglow_verif)]
+impl BlockInfo {
+    /// Creates a [`BlockInfo`] for a synthetic block.
+    #[must_use]
+    pub const fn verif_new(hash: BlockHash, parent: BlockId) -> Self {
+        Self { hash, parent }
+    }
+
+    /// Returns the hash of the block.
+    #[must_use]
+    pub const fn verif_hash(&self) -> &BlockHash {
+        &self.hash
+    }
+
+    /// Returns the parent of the block.
+    #[must_use]
+    pub const fn verif_parent(&self) -> &BlockId {
+        &self.parent
+    }
+}
+
 impl From<&Block> for BlockInfo {
     fn from(block: &Block) -> Self {
         BlockInfo {
